@@ -2,6 +2,7 @@ package ext
 
 import (
 	"github.com/alligator/jqawk/zzverif/vh"
+	"strings"
 )
 
 // VHC08Binding: arguments bind by position (missing = null, surplus ignored), scalars
@@ -14,16 +15,48 @@ func VHC08Binding() {
 	// argument values: symbolic one-byte strings
 	doc := map[string]any{}
 	args := ""
-	var vals []string
+	var vals []string // what each argument evaluates to ("" = null)
+	var forms []int   // 0 an existing member, 1 a missing member, 2 a variable
+	pre, post, postWant := "", "", ""
+	reassign := false
 	for i := 0; i < nargs; i++ {
 		s := vh.Bytes("a"+itoa(i), 1)
 		vh.Assume(vh.InRange(s[0], 'j', 'm'))
 		doc["a"+itoa(i)] = s
-		vals = append(vals, s)
+		form := vh.Choose("form"+itoa(i), 3)
+		forms = append(forms, form)
 		if i > 0 {
 			args += ", "
 		}
-		args += "$.a" + itoa(i)
+		is := itoa(i)
+		switch form {
+		case 0:
+			args += "$.a" + is
+			vals = append(vals, s)
+			post += "print 'a" + is + "', $.a" + is + "\n"
+			postWant += "a" + is + " " + s + "\n"
+		case 1:
+			args += "$.m" + is
+			vals = append(vals, "")
+			post += "print 'm" + is + "', $.m" + is + ", $.m" + is + " is null\n"
+			postWant += "m" + is + " null true\n"
+		case 2:
+			pre += "v" + is + " = $.a" + is + "\n"
+			if i == 1 && forms[0] == 2 && vh.Choose("reassign", 2) == 1 {
+				// a later argument expression assigns the variable passed before it
+				reassign = true
+				args += "v0 = 'N'"
+				vals = append(vals, "N")
+				break
+			}
+			args += "v" + is
+			vals = append(vals, s)
+			post += "print 'v" + is + "', v" + is + "\n"
+			postWant += "v" + is + " " + s + "\n"
+		}
+	}
+	if reassign {
+		postWant = strings.Replace(postWant, "v0 "+vals[0]+"\n", "v0 N\n", 1)
 	}
 	plist := ""
 	body := ""
@@ -46,11 +79,11 @@ func VHC08Binding() {
 	}
 	// a nested call that completed with a return value must not leak into f's own result
 	prog := "function h() { return 'H' }\nfunction f(" + plist + ") {\n" + body + "local = 'L'\nglob = 'G'\ntmp = h()\n" + ret + "\nprint 'fell off', tmp\n}\n" +
-		"{ glob = 'g0'\nx0 = $.a0\nr = f(" + args + ")\nprint 'r', r\nprint 'glob', glob\nprint local is unknown, p0 is unknown, p1 is unknown, p2 is unknown, z is unknown, q is unknown\nprint 'x0', x0, $.a0 }"
+		"{ glob = 'g0'\nx0 = $.a0\n" + pre + "r = f(" + args + ")\nprint 'r', r\nprint 'glob', glob\nprint local is unknown, p0 is unknown, p1 is unknown, p2 is unknown, z is unknown, q is unknown\nprint 'x0', x0, $.a0\n" + post + "}"
 	out, k := runProg(prog, doc)
 	want := ""
 	for i, p := range params {
-		if i < nargs {
+		if i < nargs && vals[i] != "" {
 			want += p + " " + vals[i] + "\n"
 		} else {
 			want += p + " null\n"
@@ -68,10 +101,12 @@ func VHC08Binding() {
 	}
 	want += "glob G\ntrue true true true true true\n"
 	if nargs > 0 {
-		want += "x0 " + vals[0] + " " + vals[0] + "\n"
+		a0 := doc["a0"].(string)
+		want += "x0 " + a0 + " " + a0 + "\n"
 	} else {
 		want += "x0 null null\n"
 	}
+	want += postWant
 	vh.Reach("call evaluated")
 	vh.Assert(k == OK, "C08: a call with any argument count succeeds")
 	vh.Assert(out == want, "C08: arguments bind by position and value; parameters, locals and pattern names vanish; globals persist")
